@@ -44,6 +44,14 @@ def reachable(model: Model, start: FuncInfo, module: Optional[str] = None) -> Li
                 ci = model.classes.get(q) if q else None
                 if ci is not None and ci.module == module:
                     nxt.extend(ci.methods.values())
+        # methods the function calls on its own object
+        if f.cls is not None:
+            for n in ast.walk(f.node):
+                if isinstance(n, ast.Attribute) and isinstance(n.value, ast.Name) and n.value.id in ("self", "cls") and isinstance(n.ctx, ast.Load):
+                    for k in model.subclasses(f.cls) if f.cls in model.classes else [f.cls]:
+                        mt = model.find_method(k, n.attr)
+                        if mt is not None and mt.module == module and not isinstance(mt.node, ast.Lambda):
+                            nxt.append(mt)
         for c in nxt:
             if c.qualname not in seen:
                 seen[c.qualname] = c
